@@ -1089,6 +1089,55 @@ def rule_r12(prog, res):
               c10.rule_r3, prog, Result, ef, 'quick')
 
 
+def rule_r13(prog, res):
+    from .. import guardspec
+    res.rule('R13', 'a request phase that refuses the request does not '
+             'produce a response body itself (transport.respond() sets '
+             'out_string, after which the fault is never serialised and its '
+             'document/string events never fire); the ordered set behind the '
+             'listener lists relinks both neighbours of a removed entry')
+    n = 0
+    for c in prog.all_classes():
+        if not c.module.relpath.startswith('spyne/protocol/'):
+            continue
+        for nm in ('create_in_document', 'decompose_incoming_envelope',
+                   'deserialize', 'validate_document'):
+            f = c.methods.get(nm)
+            if f is None or f.cls is not c:
+                continue
+            n += 1
+            for call in calls_in(f.node):
+                if call_name(call) == 'respond' and isinstance(
+                        call.func, ast.Attribute) and 'transport' in unparse(
+                            call.func.value):
+                    where = '%s:%d' % (f.module.relpath, call.lineno)
+                    res.ob('R13', where, '%s calls %s' % (
+                        f.qualname, unparse(call)[:50]), 'VIOLATED')
+                    res.finding('R13', '%s|respond-in-request-phase' %
+                                f.qualname, where, '%s answers through '
+                                'transport.respond(), which also sets '
+                                'ctx.out_string = []: get_out_string_pull '
+                                'then returns before serialize() and '
+                                'finalize_context(), so method_exception_'
+                                'document and method_exception_string never '
+                                'fire and the client gets an empty body' %
+                                f.qualname)
+    res.floor('R13', 'request-phase methods of the protocols', n, 10)
+    o = prog.cls('spyne.util.oset:oset')
+    d = o.methods.get('discard')
+    if d is None:
+        raise AnalysisError('oset.discard', 'not found')
+    links = [a for a in walk_no_defs(d.node) if isinstance(a, ast.Assign) and
+             isinstance(a.targets[0], ast.Subscript) and unparse(
+                 a.targets[0].slice) in ('NEXT', 'PREV')]
+    res.floor('R13', 'relinking stores in oset.discard', len(links), 2)
+    for a in links:
+        guardspec.check(res, 'R13', d, a, 'the relinking of a neighbour',
+                        allowed=[('key in self.map', True)],
+                        key='oset.discard|relink|%s' % unparse(
+                            a.targets[0].slice))
+
+
 def run(prog, res, tier):
     res.run_rule(rule_r1, prog, res, tier)
     res.run_rule(rule_r2, prog, res)
@@ -1102,6 +1151,7 @@ def run(prog, res, tier):
     res.run_rule(rule_r10, prog, res)
     res.run_rule(rule_r11, prog, res)
     res.run_rule(rule_r12, prog, res)
+    res.run_rule(rule_r13, prog, res)
 
 
 _A = 'spyne/application.py'
@@ -1114,6 +1164,16 @@ _D = 'spyne/descriptor.py'
 _O = 'spyne/util/oset.py'
 
 MUTANTS = [
+    Mutant('refusal-through-respond', 'R13', 'fire',
+           'spyne/protocol/soap/soap11.py',
+           in_func('Soap11.create_in_document',
+                   "ctx.transport.resp_code = HTTP_405",
+                   "ctx.transport.respond(HTTP_405)"),
+           'respond-in-request-phase'),
+    Mutant('oset-tail-not-relinked', 'R13', 'fire', _O,
+           in_func('oset.discard', "            next[PREV] = prev",
+                   "            if next is not self.end:\n"
+                   "                next[PREV] = prev"), 'relink'),
     Mutant('null-fault-leaves-context-open', 'R11', 'fire',
            'spyne/server/null.py',
            in_func('_FunctionCall.__call__',
